@@ -219,7 +219,7 @@ def run(ctx):
 
     # LMRF / CMRF: D(x - location) with the first-order operator
     dlines, dmeta = [], []
-    for bc in ["zero", "periodic", "neumann"]:
+    for bc in BCS:
         for n in g1:
             dlines.append(f"diff1 1 {bc} {n}"); dmeta.append((1, bc, n))
         for n in g2:
@@ -230,11 +230,16 @@ def run(ctx):
         D = np.array([[float(v) for v in r] for r in pm(out)]) if out != "_" else np.zeros((0, dim))
         if D.shape[0] == 0:
             continue
-        loc = rng.randint(-3, 4, size=dim).astype(float)
+        # location: vector, or a (non-zero) scalar broadcast over the geometry
+        scalar_loc = rng.rand() < 0.4
+        if scalar_loc:
+            loc_arg = float(rng.choice([-2.0, 1.0, 3.0])); loc = np.full(dim, loc_arg)
+        else:
+            loc = rng.randint(-3, 4, size=dim).astype(float); loc_arg = loc
         x = rng.randint(-4, 5, size=dim).astype(float)
         scale = float(rng.choice([0.5, 1.0, 2.0]))
-        geom = {} if pd == 1 else {"geometry": Image2D((n, n))}
-        desc = {"mrf": f"{pd}D", "bc": bc, "n": n, "scale": scale}
+        geom = ({"geometry": dim} if scalar_loc else {}) if pd == 1 else {"geometry": Image2D((n, n))}
+        desc = {"mrf": f"{pd}D", "bc": bc, "n": n, "scale": scale, "location": "scalar" if scalar_loc else "vector"}
         Dx = D @ (x - loc)
         for fam, cls, ref in (
             ("LMRF", LMRF, len(Dx) * (-(math.log(2) + math.log(scale))) - float(np.abs(Dx).sum()) / scale),
@@ -243,7 +248,7 @@ def run(ctx):
             ctx.case(f"{fam}{pd}", desc)
             try:
                 with quiet():
-                    dist = cls(loc, scale, bc_type=bc, **geom)
+                    dist = cls(loc_arg, scale, bc_type=bc, **geom)
                     got = float(dist.logpdf(x))
             except Exception as e:
                 ctx.note(f"{fam} refused {desc}: {repr(e)[:80]}")
